@@ -24,6 +24,7 @@ def load(fw):
     _fw = fw
     _mod = mod
     _silence_logging()
+    _quiet_serializer_import()
     from .seams import SEAMS
     SEAMS.install()
     return mod
@@ -49,3 +50,22 @@ def _silence_logging():
     logging.disable(logging.CRITICAL)
     import warnings
     warnings.simplefilter("ignore")
+
+
+def _quiet_serializer_import():
+    """Importing the UBJSON serializer prints a harmless numpy/bjdata traceback to stderr.  It
+    must happen *after* the txaio framework was selected (serializer.py binds txaio.time_ns at
+    import time)."""
+    import os
+    fd = os.dup(2)
+    dn = os.open(os.devnull, os.O_WRONLY)
+    os.dup2(dn, 2)
+    try:
+        try:
+            import autobahn.wamp.serializer  # noqa: F401
+        except Exception:
+            pass
+    finally:
+        os.dup2(fd, 2)
+        os.close(dn)
+        os.close(fd)
